@@ -57,6 +57,9 @@ pub struct GrammarSys {
     pub ch: u8,
     pub timeout: u64,
     pub timeout_us: u64,
+    /// length of one clock tick in nanoseconds (1 ms unless `with_tick_us` is used); `now`, `timeout`,
+    /// `cap`, ages and pauses are in ticks
+    pub tick_ns: u64,
     pub exotic: Option<(Duration, &'static str)>,
     pub cap: u64,
     pub pauses: Vec<u64>,
@@ -70,6 +73,7 @@ impl GrammarSys {
             ch,
             timeout,
             timeout_us: timeout.saturating_mul(1000),
+            tick_ns: 1_000_000,
             exotic: None,
             cap: cap_for(timeout, 1),
             pauses: if WRAP16.load(std::sync::atomic::Ordering::Relaxed) { vec![1000, (1 << 16) - 2, (1 << 20) + 100, 1 << 32] } else { vec![1000, (1 << 20) + 100, 1 << 32] },
@@ -96,8 +100,20 @@ impl GrammarSys {
         self.cap = cap_for(self.timeout, 1);
         self
     }
-    fn expired(&self, age_ms: u64) -> bool {
-        age_ms.saturating_mul(1000) >= self.timeout_us
+    fn expired(&self, age: u64) -> bool {
+        (age as u128) * (self.tick_ns as u128) >= (self.timeout_us as u128) * 1000
+    }
+    /// A finer clock (one tick = `tick_us` microseconds), so that polls fall between whole milliseconds.
+    pub fn with_tick_us(mut self, tick_us: u64) -> Self {
+        assert!(self.timeout < T_INF && self.exotic.is_none());
+        self.tick_ns = tick_us * 1000;
+        self.timeout = (self.timeout_us + tick_us - 1) / tick_us;
+        self.cap = cap_for(self.timeout, 1);
+        self.pauses = vec![(1 << 20) + 100];
+        self
+    }
+    fn clock(&self, ticks: u64) {
+        helgoboss_midi::verif_hooks::set_now_ticks(ticks, self.tick_ns);
     }
     fn vio(&self, rule: &str, cls: &str, detail: impl FnOnce() -> String) -> Violation {
         Violation::lazy(rule, format!("C12/{}/{}/T={}", rule, cls, self.tname()), detail)
@@ -205,10 +221,10 @@ impl System for GrammarSys {
         "C12".to_string()
     }
     fn name(&self) -> String {
-        format!("PollingParameterNumberMessageScanner x documented-sequence grammar generator [ch={}, timeout={}, |V|={}]", self.ch, self.tname(), self.values.len())
+        format!("PollingParameterNumberMessageScanner x documented-sequence grammar generator [ch={}, timeout={}, tick={}us, |V|={}]", self.ch, self.tname(), self.tick_ns / 1000, self.values.len())
     }
     fn init(&self) -> GState {
-        set_now_millis(0);
+        self.clock(0);
         GState { sc: PollingParameterNumberMessageScanner::new(match self.exotic { Some((d, _)) => d, None => Duration::from_micros(self.timeout_us) }), now: 0, g: G::Start }
     }
     fn actions_at(&self, s: &GState, depth: u32, out: &mut Vec<GAct>) {
@@ -237,7 +253,7 @@ impl System for GrammarSys {
     }
     fn step(&self, s: &GState, a: &GAct) -> Step<GState> {
         let mut v = Vec::new();
-        set_now_millis(s.now);
+        self.clock(s.now);
         let mut sc = s.sc;
         match a {
             GAct::Cc(c, val) => {
@@ -310,8 +326,8 @@ impl System for GrammarSys {
             GAct::Cc(c, v) => format!("println!(\"{{:?}}\", scanner.feed(&helgoboss_midi::test_util::control_change({}, {}, {})));", self.ch, c, v),
             GAct::Other(_) => format!("// feed {}", self.render(a)),
             GAct::Poll => format!("println!(\"{{:?}}\", scanner.poll(helgoboss_midi::test_util::channel({})));", self.ch),
-            GAct::Tick => "clock += 1; helgoboss_midi::verif_hooks::set_now_millis(clock);".to_string(),
-            GAct::Pause(i) => format!("clock += {}; helgoboss_midi::verif_hooks::set_now_millis(clock);", self.pauses[*i as usize]),
+            GAct::Tick => format!("clock += 1; helgoboss_midi::verif_hooks::set_now_ticks(clock, {}); // one tick = {} us", self.tick_ns, self.tick_ns / 1000),
+            GAct::Pause(i) => format!("clock += {}; helgoboss_midi::verif_hooks::set_now_ticks(clock, {});", self.pauses[*i as usize], self.tick_ns),
         }
     }
 }
@@ -505,8 +521,9 @@ pub fn run_c12(chk: &Check, tier: Tier) {
         }
         if t == 2 {
             // a timeout with a sub-millisecond part, one below a millisecond
-            for us in [1500u64, 500] {
-                let sys = GrammarSys::new(channels[0], 2, &v3).with_timeout_us(us);
+            // (on a finer clock: half / quarter millisecond ticks)
+            for (us, tick_us) in [(1500u64, 500u64), (500, 250)] {
+                let sys = GrammarSys::new(channels[0], 2, &v3).with_timeout_us(us).with_tick_us(tick_us);
                 let out = xs::explore(&sys, &Limits::default());
                 engine::record(chk, &sys, &out, None);
             }
